@@ -847,6 +847,45 @@ def r15_constant_terminates(a, tier):
     return rep
 
 
+def r16_messages_total(a, tier):
+    from ..minieval import Raised
+    from ..modelinterp import Bound, ModelInterp, Stub
+    rep = RuleReport(
+        'C08.R16',
+        'the message of a failure is computed from what the raise site handed over, and raise sites hand over None as well as text (the '
+        'any-character atom at end of text reports the character it read: None): the `message` property of every exception class in '
+        'tatsu/exceptions.py that defines one, interpreted (helpers of the repository included) with its fields holding None, "", a '
+        'token and a 200-character text, returns a string - it never raises',
+        floor=4,
+    )
+    n = 0
+    for q, ci in sorted(a.p.classes.items()):
+        if not q.startswith('tatsu.exceptions.') or 'message' not in ci.methods:
+            continue
+        m = ci.methods['message']
+        fields = sorted({x.attr for x in ast.walk(m.node) if isinstance(x, ast.Attribute) and isinstance(x.value, ast.Name) and x.value.id == 'self'})
+        for v in (None, '', 'tok', 'x' * 200):
+            me = Stub(q, **dict.fromkeys(fields, v))
+            try:
+                got = ModelInterp(a).call_bound(Bound(me, m), [], {})
+                outcome = 'returns ' + type(got).__name__
+                ok = isinstance(got, str) or (got is None and v is None)  # the base class hands its msg field on as it is
+            except Raised as r:
+                outcome, ok = f'raises {r.cls_name}', False
+            except Unsupported as e:
+                raise AnalysisError(f'C08.R16: cannot interpret {q}.message: {e}') from e
+            except (TypeError, AttributeError, ValueError) as e:  # a builtin of the interpreted code failed on the value
+                outcome, ok = f'raises {type(e).__name__}: {e}', False
+            n += 1
+            rep.add({'class': q.split('.')[-1], 'fields': fields, 'value': repr(v)[:20], 'message': outcome, 'ok': ok})
+            if not ok:
+                rep.fail(m.qualname, f'message-total:{q.split(".")[-1]}:{v!r:.12}', f'{q.split(".")[-1]}.message with {fields} = {v!r:.30}: {outcome}; a failure that is raised '
+                         f'correctly cannot be printed (str(e), e.message and e.render() raise)', m.loc)
+    if not n:
+        raise AnalysisError('C08.R16: no message property found in tatsu/exceptions.py')
+    return rep
+
+
 def r11_line_index(a, tier):
     """the position a failure carries is turned into line, column and source line by the line index: the clause "whose line, column and
     source line agree with it" is the line-index rule of C12"""
@@ -860,4 +899,4 @@ def r11_line_index(a, tier):
 
 
 RULES = [r1_one_factory, r2_sentinels, r3_cache_guards, r4_check_before_use, r5_progress, r6_scanner_bounds, r7_operand_coverage,
-         r8_eat_loops_terminate, r9_converters_guarded, r10_message_renders, r11_line_index, r12_include_cycles, r13_input_converters, r14_pattern_literals, r15_constant_terminates]
+         r8_eat_loops_terminate, r9_converters_guarded, r10_message_renders, r11_line_index, r12_include_cycles, r13_input_converters, r14_pattern_literals, r15_constant_terminates, r16_messages_total]
